@@ -28,5 +28,7 @@ git -C /repo worktree remove --force $wt
 echo "demo on clean tree exit=$clean_demo (want 0); build=$build (want 0); demo with patch exit=$patched_demo (want !=0); existing tests of touched packages exit=$suite (want 0, known-failing rmt/smt fixtures aside)" | tee -a $log
 grep -E "^(FAIL|---)" $dst/suite.log | head -5
 # run our check against the change
+cp /verif/evidence/$prop.json /tmp/evidence-$prop.bak 2>/dev/null
 git -C /repo apply $dst/patch.diff && (cd /verif && ./check $prop quick > $dst/check.log 2>&1; echo "check exit=$?" | tee -a $dst/check.log); git -C /repo checkout -- . 
+cp /tmp/evidence-$prop.bak /verif/evidence/$prop.json 2>/dev/null
 grep -E "VIOLATION|failed obligation|baseline obligation|^property" $dst/check.log | head -8
